@@ -268,6 +268,19 @@ Holds(e, name) ==
          \A cb \in Interior(MeshOf(cf.big)) :
             FieldOf(MeshOf(cf.big), o.B.tvdnamed[k])[cb] = FieldOf(g, o.tvdnamed[k])[Pre(cf.tr, g, cb)]
     [] name = "C08_Solve"     -> C08_Field(cf.tr, g, MeshOf(cf.big), FieldOf(g, o.r_solve), FieldOf(MeshOf(cf.big), o.B.r_solve))
+    [] name = "X_CellLocations" ->
+         \A a \in Axes(g) : \A c \in Interior(g) : FieldOf(g, o.celllocs[a])[c] = CellLocation(g, a)[c]
+    [] name = "X_FaceLocations" ->
+         \* faceLocations(m)[a] holds, for every face of axis a, all its coordinates
+         \A a \in Axes(g) : \A b \in Axes(g) : \A f \in FaceCells(g, a) :
+            FAt(o.facelocs[a][b], a, f) = (IF b = a THEN Face(g, a, f[a]) ELSE Centre(g, b, f[b]))
+    [] name = "X_GradFixedBC" -> FaceFieldOf(g, o.gradfixed) = GradFixedBC(g, FieldOf(g, cf.phi))
+    [] name = "X_FaceCtorScalar" -> \A id \in FaceIds(g) : FaceFieldOf(g, o.facector_scalar)[id] = cf.const
+    [] name = "X_FaceCtorTuple" -> \A id \in FaceIds(g) : FaceFieldOf(g, o.facector_tuple)[id] = cf.lin_beta[id[1]]
+    [] name = "X_Utility" ->
+         \A k \in 1..Len(o.utility) :
+            LET u == o.utility[k] IN u.abc = Utility(u.method, u.x, u.y, u.z, u.rev)
+    [] name = "X_Integral" -> o.integral = DomainIntegral(g, V, FieldOf(g, cf.phi))
     [] name = "C04_DiffInterior" -> InteriorRowsOnly(g, MatOf(o.Mdiff))
     [] name = "C04_ConvInterior" -> InteriorRowsOnly(g, MatOf(o.Mconv))
     [] name = "C04_UpInterior"   -> InteriorRowsOnly(g, MatOf(o.Mup))
